@@ -24,13 +24,44 @@ EXTRA_BUILDERS = [
 ]
 
 
+def confirmed_ids():
+    import json
+    import os
+    from facts import VERIF
+    try:
+        with open(os.path.join(VERIF, 'tables', 'factory_contract.json')) as fh:
+            return set(json.load(fh)['contracts'])
+    except (OSError, ValueError, KeyError):
+        return set()
+
+
 def all_factories(F):
+    """Factories and builders the analyses run over.  A factory that is not in the confirmed table (new since the
+    table was confirmed) and whose body is outside the evaluator's language (it fills a container in a loop, say) is
+    left out and listed in F.unanalysed_factories: nothing is claimed about it, and nothing is alarmed.  A confirmed
+    factory that stops being evaluable is not left out: the checks then end as analysis-broken."""
+    cached = getattr(F, '_all_factories', None)
+    if cached is not None:
+        return list(cached)
     fs = contracts.factories(F)
     for fid in EXTRA_BUILDERS:
         f = F.fn.get(fid)
         if f is not None:
             fs.append(f)
-    return fs
+    known = confirmed_ids()
+    S = Sym(F, opaque=contracts.default_opaque(F), max_depth=64)
+    keep, skipped = [], []
+    for f in fs:
+        if f['id'] not in known:
+            try:
+                S.run(f['id'])
+            except Unsupported as e:
+                skipped.append((f['id'], str(e)))
+                continue
+        keep.append(f)
+    F.unanalysed_factories = skipped
+    F._all_factories = keep
+    return list(keep)
 
 
 def compute(F):
